@@ -27,30 +27,44 @@ pub fn get_atom(config: &SmartCalcConfig, data: &str, group_item: &[Regex]) -> V
 
             let token_type = match atom_type {
                 "TIME" => {
-                    let seconds = data.parse::<u32>().unwrap();
+                    let time = match data.parse::<u32>().ok().and_then(|seconds| NaiveTime::from_num_seconds_from_midnight_opt(seconds, 0)) {
+                        Some(time) => time,
+                        None => {
+                            log::info!("Time information not valid, {}", data);
+                            continue
+                        }
+                    };
                     let date = Utc::now().naive_local().date();
-                    let time = NaiveTime::from_num_seconds_from_midnight(seconds, 0);
                     let date_time = NaiveDateTime::new(date, time);
                     
                     TokenType::Time(date_time, config.get_time_offset())
                 },
                 "MONEY" => {
                     let splited_data: Vec<&str> = data.split(';').collect();
-                    match config.get_currency(splited_data[1].to_string()) {
-                        Some(currency_info) => TokenType::Money(splited_data[0].parse::<f64>().unwrap(), currency_info.clone()),
-                        None => {
+                    let price = match splited_data.len() {
+                        2 => splited_data[0].parse::<f64>().ok(),
+                        _ => None
+                    };
+                    
+                    match (price, config.get_currency(splited_data[splited_data.len() - 1].to_string())) {
+                        (Some(price), Some(currency_info)) => TokenType::Money(price, currency_info.clone()),
+                        _ => {
                             log::info!("Currency information not found, {}", splited_data[1]);
                             continue
                         }
                     }
                 },
                 "NUMBER" => {
-                    let number = data.parse::<f64>().unwrap();
-                    TokenType::Number(number, NumberType::Decimal)
+                    match data.parse::<f64>() {
+                        Ok(number) => TokenType::Number(number, NumberType::Decimal),
+                        Err(_) => continue
+                    }
                 },
                 "PERCENT" => {
-                    let number = data.parse::<f64>().unwrap();
-                    TokenType::Percent(number)
+                    match data.parse::<f64>() {
+                        Ok(number) => TokenType::Percent(number),
+                        Err(_) => continue
+                    }
                 },
                 "OPERATOR" => TokenType::Operator(data.chars().next().unwrap()),
                 _ => {
